@@ -45,7 +45,7 @@ class GeckoSnapshot:
             # Match "Log version 9"
             (r"Log version (\d+)", self._re_log_version),
             # Match "['0x5', '0x1', ... '0x0']"
-            (r"\[([0-9A-Fa-fx\\' ,]*)\]", self._re_data),
+            (r"\[('0x[0-9A-Fa-f]+'(?:, *'0x[0-9A-Fa-f]+')*)\]", self._re_data),
             #
             #   Connection set
             #
